@@ -14,6 +14,7 @@ import Driver.Restart
 import Driver.Conc
 import Driver.Repl
 import Driver.Idxm
+import Driver.Backup
 
 partial def loop (h : IO.FS.Stream) (out : IO.FS.Stream) (f : List String → String) : IO Unit := do
   let line ← h.getLine
@@ -45,6 +46,7 @@ def main (args : List String) : IO UInt32 := do
   | ["conc"] => loopS stdin stdout Driver.Conc.step ({} : Driver.Conc.W); return 0
   | ["repl"] => loopS stdin stdout Driver.Repl.step ({} : Driver.Repl.W); return 0
   | ["idxm"] => loopS stdin stdout Driver.Idxm.step ({} : Driver.Idxm.W); return 0
+  | ["backup"] => loopS stdin stdout Driver.Backup.step ({} : Driver.Backup.W); return 0
   | ["encr"] => loopS stdin stdout Driver.Encr.step ({} : Driver.Encr.W); return 0
   | ["events"] => loopS stdin stdout Driver.Events.step ({} : Driver.Events.St); return 0
   | ["mvcc"] => loopS stdin stdout Driver.Mvcc.step ({} : Defra.Mvcc.DB); return 0
